@@ -1112,7 +1112,9 @@ func (g *gen) idiom(d int, top bool) []stmtText {
 		g.kindHit("idiom:regexp-escapes-that-matter")
 		type rt struct{ re, subj string }
 		t := []rt{{`/a{1\,2}/`, "aa"}, {`/a{1\,2}/`, "a{1,2}"}, {`/[a[\-z]/`, "b"}, {`/[a[\-z]/`, "-"}, {`/[[\-\]]/`, "\\\\"}, {`/[[\-\]]/`, "-"},
-			{`/^a{2\,}$/`, "aaa"}, {`/[x\-z]/`, "y"}, {`/[\-z]/`, "-"}, {`/[a\-]/`, "-"}, {`/[\^a]/`, "b"}, {`/[^\-a]/`, "-"}, {`/[.\-\/]/`, "-"}, {`/x\-y/`, "x-y"}}[r.Intn(14)]
+			{`/^a{2\,}$/`, "aaa"}, {`/[x\-z]/`, "y"}, {`/[\-z]/`, "-"}, {`/[a\-]/`, "-"}, {`/[\^a]/`, "b"}, {`/[^\-a]/`, "-"}, {`/[.\-\/]/`, "-"}, {`/x\-y/`, "x-y"},
+			// (K134 repaired) the v flag: escaped punctuators in a class are not the bare characters (&& is intersection, !! is reserved)
+			{`/[a\&\&b]/v`, "&"}, {`/[a\&\&b]/v`, "a"}, {`/[\!\!]/v`, "!"}, {`/[a\-\-b]/v`, "-"}, {`/[x\~\~]/v`, "~"}}[r.Intn(19)]
 		return one(h()+"("+t.re+".test(\""+t.subj+"\"),String("+t.re+".exec(\""+t.subj+"\")))", true)
 	case 43, 44: // class fields with numeric / string names after static (K126)
 		g.kindHit("idiom:static-field-names")
